@@ -183,7 +183,25 @@ func (fr *Frame) staticCall(callee *ssa.Function, free []Val, args []Val, st *St
 		}
 	}
 	if fc := c.contractOf(callee); fc != nil && !fc.Inline && callee != c.top {
-		return fr.callByContract(fc, callee.Signature, paramNames(callee), args, st, pos, callee.String())
+		// a closure's contract may name its captured variables
+		names := paramNames(callee)
+		cargs := args
+		if len(callee.FreeVars) > 0 && len(free) == len(callee.FreeVars) {
+			if len(fc.Params) > 0 {
+				names = fc.Params
+			}
+			names = append([]string{}, names...)
+			cargs = append([]Val{}, args...)
+			for i, fv := range callee.FreeVars {
+				if cp, ok := free[i].(CellPtr); ok {
+					if cv, ok := st.cells[cp.Key]; ok {
+						names = append(names, fv.Name())
+						cargs = append(cargs, cv)
+					}
+				}
+			}
+		}
+		return fr.callByContract(fc, callee.Signature, names, cargs, st, pos, callee.String())
 	}
 	inModule := strings.HasPrefix(pkgPath, modulePrefix) || callee.Parent() != nil
 	if inModule && len(callee.Blocks) > 0 {
@@ -254,7 +272,7 @@ func (c *Ctx) inline(fv FuncV, args []Val, st *State, pos token.Pos) []Val {
 func (fr *Frame) callByContract(fc *FuncContract, sig *types.Signature, srcNames []string, args []Val, st *State, pos token.Pos, what string) []Val {
 	c := fr.c
 	names := srcNames
-	if len(fc.Params) > 0 {
+	if len(fc.Params) > 0 && len(srcNames) <= len(fc.Params) {
 		names = fc.Params
 	}
 	env := &Env{c: c, fr: fr, st: st, names: map[string]Val{}}
